@@ -236,6 +236,21 @@ func execRenderCase(c *Sx, env *execEnv) (*Sx, []Violation) {
 	out.Add(ra.rawSx)
 	viols := va
 	env.count(fmt.Sprintf("render-variant:%d", bits))
+	// the variant under recover first (a panic is C12's); a difference in the ingress-controller lines is C10's as well
+	rb, vb := runListRel(dirB, "", env, c.String())
+	viols = append(viols, vb...)
+	if len(vb) > 0 {
+		return out, viols
+	}
+	if sa, sb := ra.rawSx.String(), rb.rawSx.String(); sa != sb {
+		d := fmt.Sprintf("variant %d: the result differs between two renderings of the same objects: %s vs %s", bits, sa[:min(300, len(sa))], sb[:min(300, len(sb))])
+		viols = append(viols, Violation{Prop: "C01", Kind: "rendering-changes-result", Detail: d, Case: c.String()})
+		ica, icb := ingressLinesOf(ra.rawSx), ingressLinesOf(rb.rawSx)
+		if ica != icb {
+			viols = append(viols, Violation{Prop: "C10", Kind: "rendering-changes-ingress-lines", Detail: fmt.Sprintf("variant %d: ingress-controller lines %q vs %q", bits, ica, icb), Case: c.String()})
+		}
+		return out, viols
+	}
 	for _, exposure := range []bool{false, true} {
 		for _, f := range []string{"txt", "json"} {
 			la := libList(dirA, f, "", exposure, false)
@@ -254,7 +269,33 @@ func execRenderCase(c *Sx, env *execEnv) (*Sx, []Violation) {
 	return out, viols
 }
 
+// ingressLinesOf: the `{ingress-controller} => W` entries (and blocked warnings) of a canonical list result
+func ingressLinesOf(r *Sx) string {
+	var l []string
+	for _, e := range r.Args() {
+		if (e.Head() == "e" && len(e.L) > 1 && e.L[1].A == "{ingress-controller}") || e.Head() == "blocked" {
+			l = append(l, e.String())
+		}
+	}
+	return strings.Join(l, " ")
+}
+
 func init() {
+	// renderi: the same relation on worlds that always hold Services / Ingresses / Routes (C10)
+	families["renderi"] = family{
+		gen: func(r *Rng, id int, tier string) *Sx {
+			cfg := &genCfg{anp: r.P(20), banp: true, pods: true, ingress: true, namedOnIPPct: 0, maxNP: 3, maxWl: 4}
+			w := genWorld(r, cfg)
+			bits := 1 // the namespace `default` is always left out here
+			for b := 2; b <= 128; b <<= 1 {
+				if r.P(45) {
+					bits |= b
+				}
+			}
+			return Ls(At("wcase"), Ai(int64(id*256+bits)), w.Sx(), Ls(At("list"), At("-")))
+		},
+		exec: execRenderCase,
+	}
 	families["render"] = family{
 		gen: func(r *Rng, id int, tier string) *Sx {
 			cfg := &genCfg{anp: r.P(30), banp: true, pods: true, ingress: r.P(30), namedOnIPPct: 0, maxNP: 3, maxWl: 4}
